@@ -32,3 +32,28 @@ claim("C07",
       "Not decided: that sort.Sort is given a transitive relation on value level (only pairwise laws on the abstraction), the LIMIT/OFFSET clamping arithmetic and the extent of WITH TIES (boundary panics of LIMIT are under C19: R-ERR-9/10). Two feasibility invariants of NewSortValue are assumed and stated in the evidence (only FloatType holds NaN; a StringType text never equals a numeric value's text).",
       "finite-domain abstract interpretation (exhaustive), structural field-coverage check, CFG must-precede",
       "DESIGN.md §3 C07")
+
+claim("C13",
+      "Decides lockset consistency of every concurrent region of lib/query (engine E5): the operands of all `go` statements and all callbacks handed to the task runners (found by role: a function that passes its func parameter to a `go` operand which calls it). "
+      "Every memory access of a region through a shared root (captured variable, shared parameter, global), including accesses inside methods it calls on shared objects (depth ≤ 3), is reduced to an access path; "
+      "R-PAR-1 requires every write to be index-partitioned by the task index, or every conflicting access of a concurrently running region to hold a common mutex (sync, sync/atomic, channels exempt). "
+      "This quantifies over all schedules, which neither tests nor a race detector run can; three genuine races it reported were repaired in /repo.",
+      "Not decided: accesses made by callees reached only through Evaluate/Select on objects that pre-exist the region (needs points-to analysis, unavailable here; see DESIGN §3 C13), confinement of the per-record scope objects (R-PAR-4, planned), parent-goroutine accesses between spawn and join. Assumes index expressions derived from the task index are injective across tasks (instances listed in the evidence) and that accesses at different path lengths do not alias.",
+      "goroutine-sharing analysis over SSA: concurrent-region discovery by role, access paths, task-index dependence, dominator-based locksets, callee summaries",
+      "DESIGN.md §3 C13, Appendix B.5")
+
+claim("C12",
+      "Decides the three structural sources of nondeterminism in lib/query: (R-PAR-1) result slots written by workers are addressed by the task index, never shared; "
+      "(R-PAR-3) no multi-instance region appends to a shared slice, even under a mutex (arrival order); (R-ORD-1) no iteration over a Go map or sync.Map decides the order of data — loop bodies contain only key-addressed writes, deletes, integer counters, constant flags and pure or key-addressed calls, and every slice accumulated in map order is sorted before use, followed through function results to all callers, or is one of 16 listed constructs that feed log lines / clean-up only (one reason each). "
+      "Three genuine defects (GROUP BY order, REPLACE append order, analytic-function order) were repaired in /repo.",
+      "Not decided: that the task ranges tile the input (R-PAR-5, planned), floating-point reassociation (aggregates run on one goroutine), determinism of the dependencies. Log-line order on stdout is outside the property's wording and is exempted explicitly.",
+      "goroutine-sharing analysis (E5) + map-iteration-order taint with purity/keyed-writer summaries (E7)",
+      "DESIGN.md §3 C12")
+
+claim("C19",
+      "Decides two of the panic classes this code base actually has, on every call site: (R-ERR-1) every err.Error() guarded by a non-nil test is guarded by a test of the same error value (address-keyed facts for named results / captured variables) — the wrong-error-variable nil dereference; "
+      "(R-ERR-2) every unchecked type assertion to a lib/value or go-text/json type (224 sites) is discharged by a dominating type test, by interprocedural result/field/slot type-sets with NULL/nil exclusion, by paired producer/consumer tables, or by pool New/Put agreement; two exceptions with a mechanically checked side condition. "
+      "Five genuine Fatal-Error defects found by these rules were repaired in /repo.",
+      "Not decided: absence of all panics and hangs (undecidable); general index/slice bounds (needs interval analysis), rectangularity of loaded tables, the remaining panic classes R-ERR-3..10 (being built). AST-typed assertions are fixed by the grammar and out of scope.",
+      "SSA branch-fact analysis; interprocedural type-set fixpoint with hypothesis pruning",
+      "DESIGN.md §3 C19")
